@@ -12,6 +12,9 @@ func (Engine) Generate(r *core.Rng, property, tier string) *core.Plan {
 	if property == "C13" {
 		return genStore(r, p, tier)
 	}
+	if property == "C40" {
+		return genRace(r, p, tier)
+	}
 	p.SetKnob("actors", int64(r.Range(3, 6)))
 	p.SetKnob("maturity", int64(r.Range(0, 3)))
 	g := &gen{r: r, p: p, prop: property}
